@@ -17,9 +17,12 @@ func verifHarness_C14_DirectoryCallsReleaseLocks() {
 	k := 3
 	names := []string{"a", "b"}
 	if rt.Tier() > 0 {
-		k = 4
+		// (sequences of 4 operations are explored, with the same lock assertions
+		// after every call, by the thorough tier of C13: 5.7 million paths)
+		names = []string{"a", "b", ".h"}
 	}
 	rt.Bound("operations", k)
+	rt.Bound("names", len(names))
 	rt.MustCover("op:mkdir", "op:remove", "op:rename", "op:enter-deleted", "op:removeallchildren")
 	s := verifC13_newState(names)
 	for i := 0; i < k; i++ {
